@@ -21,6 +21,64 @@ LEVEL_NOTE = ('Trusted: oracles/ecma_literals.json; Rust std number parsing/form
 DESIGN_REF = 'DESIGN.md section 4, C03'
 
 
+def float_constants_finite(ck, L, rule):
+    """Invariant: a ConstantValue::Float never holds inf or NaN (neither has a spelling as a .ui number or as a C++ literal).
+    Who-may-construct: every construction site builds the constant from a value that is finite on every path reaching it:
+    guarded by `is_finite()`, or the payload of another Float constant under a sign change, or an integer converted."""
+    n = 0
+    for fn in L.fn_list:
+        if fn.get('x') in ('Clone', 'Debug', 'PartialEq') or not fn['path'].startswith(('tir::', '<tir::')):
+            continue
+        bs = H.binding_sites(fn)
+        for c in walk(fn['body']):
+            if not (c.get('k') == 'Call' and (c.get('def') or '').endswith('ConstantValue::Float') and len(c['args']) == 1):
+                continue
+            n += 1
+            ck.analysed(fn['path'])
+            arg = H.strip_refs(c['args'][0])
+            ok, why = False, ''
+            # (a) on a path where `<value>.is_finite()` was found true (then-branch) or its negation left the function
+            hid = arg.get('hid') if arg.get('k') == 'Path' else None
+            for a in H.ancestors(fn, c):
+                if a.get('k') == 'If' and any(x is c for x in walk(a['then'])):
+                    t = H.strip_refs(a['c'])
+                    if t.get('k') == 'MCall' and t.get('m') == 'is_finite' and (H.root_local(t['recv']) or {}).get('hid') == hid and hid is not None:
+                        ok, why = True, 'under `if %s.is_finite()`' % arg.get('name')
+            if not ok and hid is not None:
+                for iff in (x for x in walk(fn['body']) if x.get('k') == 'If'):
+                    t = H.strip_refs(iff['c'])
+                    if t.get('k') == 'Unary' and t.get('op') == 'Not':
+                        t2 = H.strip_refs(t['e'])
+                        if t2.get('k') == 'MCall' and t2.get('m') == 'is_finite' and (H.root_local(t2['recv']) or {}).get('hid') == hid and \
+                                H.diverges_always(iff['then']) and H.lexically_precedes_dominating(fn, iff['c'], c):
+                            ok, why = True, 'after `if !%s.is_finite() { return Err }`' % arg.get('name')
+            # (b) a sign change / identity of the payload of another Float constant (finite by this very invariant)
+            if not ok and hid is not None:
+                vals = []
+                b = bs.get(hid)
+                if b and b['kind'] == 'let' and b['node'].get('init') is not None:
+                    vals = [H.strip_refs(v) for v in H.value_exprs(b['node']['init'])]
+                elif b and b['kind'] == 'arm':
+                    vals = [arg]
+
+                def payload(v):
+                    while v.get('k') == 'Unary' and v.get('op') in ('Neg',):
+                        v = H.strip_refs(v['e'])
+                    if v.get('k') == 'Path' and v.get('res') == 'local':
+                        b2 = bs.get(v.get('hid'))
+                        return b2 is not None and b2['kind'] == 'arm' and 'ConstantValue::Float' in pp(b2['pat'], maxlen=80)
+                    return False
+                if vals and all(payload(v) for v in vals):
+                    ok, why = True, 'the payload of a Float constant, at most negated'
+            # (c) an integer converted
+            if not ok and arg.get('k') == 'Cast' and (L.ty(arg['e']) or '') in ('i64', 'i32', 'u32', 'u64'):
+                ok, why = True, 'an integer converted to f64'
+            ck.ob(rule, 'float-constant-is-finite|%s' % short(fn['path']), ok, L.loc(c),
+                  'ConstantValue::Float(%s): %s' % (pp(arg, maxlen=30), why) if ok else
+                  'ConstantValue::Float(%s) is built from a value that may be inf or NaN (a folded 1.0/0.0, 0.0 %% 0.0, 1e308 * 10, a literal 1e999): it is embedded as <number>inf</number> / printed as `inf`' % pp(arg, maxlen=30), fn=fn['path'])
+    ck.floor(rule, n, 3, 'constructions of ConstantValue::Float')
+
+
 def run(ck):
     if getattr(ck, 'depth', 0) >= 2:
         return      # a shared run of a shared run: nothing of it is selected, and mutual sharing must end somewhere
@@ -206,12 +264,7 @@ def run(ck):
             n3 += 1
             ck.ob('R3.3', '%s|%s' % (o['rule'], o['key']), o['ok'], o['loc'], o['detail'], nontrivial=False)
     ck.floor('R3.3', n3, 90, 'operator and folding obligations shared with C01')
-    # float division/remainder are unchecked
-    ba = L.fn('tir::ceval::eval_binary_arith_expression')
-    if ba is not None:
-        for n in walk(ba['body']):
-            if n.get('k') == 'Binary' and n.get('op') in ('Div', 'Rem') and L.ty(n['l']) == 'f64':
-                ck.ob('R3.3', 'float-%s-unchecked' % n['op'].lower(), False, L.loc(n), 'f64 %s folds without a zero/finite check: 1.0/0.0 embeds <number>inf</number>, 0.0/0.0 NaN' % n['op'])
+    float_constants_finite(ck, L, 'R3.3')
 
     # ---- R3.4 casts ----------------------------------------------------------------------------------
     n_c = 0
